@@ -1,8 +1,7 @@
 (* props/C07.v - C07: moves are accepted by the Metropolis rule. *)
 From Coq Require Import ZArith NArith List Bool Reals Floats.
 From PV Require Import Num NumR model.Optimiser model.OptSpec proofs.OptStruct proofs.OptLoop proofs.FloatFacts proofs.FloatZero proofs.HillClimb proofs.RealFacts.
-From PV Require Import gen.GenFns proofs.SourceFacts.
-From PV Require Import proofs.SourceCorollaries.
+From PV Require Import gen.GenFns model.Iter model.Pipeline proofs.ListLemmas proofs.CorOpt proofs.SrcOpt.
 
 Theorem C07_undefined_never_accepted :
   forall (NN : Num) (fexp : carrier NN -> carrier NN) (thr old k : carrier NN), accept NN fexp
@@ -54,10 +53,6 @@ Proof. exact R_accept_interval. Qed.
 Print Assumptions C07_worse_accepted_iff_threshold_below_exp.
 
 
-Theorem C07_source_translated :
-  gen_fns_problem = String.EmptyString.
-Proof. exact source_translated. Qed.
-Print Assumptions C07_source_translated.
 
 Theorem C07_energy_surface_is_source :
   forall (NN : Num) (fexp : carrier NN -> carrier NN) (new old kt : carrier NN),
@@ -119,4 +114,18 @@ Theorem S_mc_step_is_source :
     calls NN st; fin := true; converged := false; bad_index := true |} end.
 Proof. exact mc_step_is_source. Qed.
 Print Assumptions S_mc_step_is_source.
+
+
+Theorem C07_optimiser_source_translated :
+  translated_gen_energy_surface = true /\ translated_gen_test_acceptance = true /\
+    translated_gen_accept_score = true /\ translated_gen_cooling_factor = true /\
+    translated_gen_build = true /\ translated_gen_inner_steps = true /\ translated_gen_loops =
+    true /\ translated_gen_converged = true /\ translated_gen_ratio_update = true /\
+    translated_gen_init = true /\ translated_gen_init_count = true /\ translated_gen_loop_head =
+    true /\ translated_gen_inner_count = true /\ translated_gen_final_ok = true /\
+    translated_gen_mc_step = true /\ translated_gen_end_loop = true /\ translated_gen_clamp =
+    true /\ translated_gen_sample = true /\ translated_gen_reset_value = true /\
+    translated_gen_set_sampled = true.
+Proof. exact optimiser_source_translated. Qed.
+Print Assumptions C07_optimiser_source_translated.
 
